@@ -36,10 +36,10 @@ def run(cx):
             'now-le-expiration(serial)': rf'^le:SerialNumber\(SerialNumber::new\(arg5\),{SIG}\.sig_expiration\)$',
             'inception-le-now(serial)': rf'^le:SerialNumber\({SIG}\.sig_inception,SerialNumber::new\(arg5\)\)$',
             'signer-name-equals-key-owner': rf'^eq:Name\({SIG}\.signer_name,RecordRef::name\(arg4\)\)$',
-            'algorithm-equal': rf'^eq:Algorithm\(<rdata::DNSKEY as dnssec::Verifier>::algorithm\(RecordRef::data\(arg4\)\),{SIG}\.algorithm\)$',
+            'algorithm-equal': rf'^eq:Algorithm\(<DNSKEY as Verifier>::algorithm\(RecordRef::data\(arg4\)\),{SIG}\.algorithm\)$',
             'key-tag-equal': rf'^eq\(DNSKEY::calculate_key_tag\(RecordRef::data\(arg4\)\)@Ok\.0,{SIG}\.key_tag\)$',
             'zone-key-flag': r'^DNSKEY::zone_key\(RecordRef::data\(arg4\)\)$',
-            'all-records-iterated': r'^!ok\(<slice::Iter<.*> as iter::Iterator>::next\(slice::iter\(arg3\.records\)\)\)$',
+            'all-records-iterated': r'^!ok\(<Iter<.*> as Iterator>::next\(slice::iter\(arg3\.records\)\)\)$',
         }
         # class IN for *every* record (loop, !any or all idiom)
         req.pop('all-records-iterated')
@@ -55,7 +55,7 @@ def run(cx):
             'key-proof-secure': r'^is\(arg2,Secure\)$',
             'not-revoked': r'^!DNSKEY::revoke\(RecordRef::data\(arg1\)\)$',
             'zone-key': r'^DNSKEY::zone_key\(RecordRef::data\(arg1\)\)$',
-            'algorithm-equal': r'^eq:Algorithm\(<rdata::DNSKEY as dnssec::Verifier>::algorithm\(RecordRef::data\(arg1\)\),SIG::input\(RecordRef::data\(arg3\)\)\.algorithm\)$',
+            'algorithm-equal': r'^eq:Algorithm\(<DNSKEY as Verifier>::algorithm\(RecordRef::data\(arg1\)\),SIG::input\(RecordRef::data\(arg3\)\)\.algorithm\)$',
             'rrsig-validity': r'^is\(RrsigValidity::check\(arg3,arg4,arg5,arg1,arg6\),ValidRrsig\)$',
             'rrsig-class-IN': r'^eq:DNSClass\(DNSClass::IN,RecordRef::dns_class\(arg3\)\)$',
             'signature-verifies': r'^ok\(Verifier::verify_rrsig\(RecordRef::data\(arg1\),arg4\.name,DNSClass::IN,RecordRef::data\(arg3\),Iterator::map\(slice::iter\(arg5\.records\),',
@@ -82,7 +82,7 @@ def run(cx):
                  r'^eq\(SIG::input\(RecordRef::data\(arg2\)\)\.num_labels,LowerName::num_labels\(arg3\.name\)\)$|^!eq:RecordType\(RecordType::NSEC3,arg3\.record_type\)$'}, fn=f)
         ins = cx.returns(f, r'Proof::Insecure')
         cx.guard('C06.G3', ins, {'all-keys-insecure': r'^Option::unwrap_or\(.*,false\)$',
-                                 'all-keys-seen': r'^!ok\(<iter::FilterMap<I;F> as iter::Iterator>::next\('}, expect=1, fn=f)
+                                 'all-keys-seen': r'^!ok\(<FilterMap<I;F> as Iterator>::next\('}, expect=1, fn=f)
         sec = cx.returns(f, r'Proof::(Secure|Bogus|Indeterminate)')
         cx.check('C06.G3', len(sec) == 0, f.path, 'returns', 'no-constant-proof-origin', str(sec))
         g = cx.fn('C06.G3', N + 'verify_rrsig_with_keys::{closure#0}')
@@ -93,7 +93,7 @@ def run(cx):
 
     # ---------------- W1/S1: TTL writes in the validator, authenticated_ttl shape
     f = cx.fn('C06.W1', N + 'VerifiedRrset::update_rrset')
-    ws = [w for w in writers(cx.prog, r'^hickory_proto::rr::(resource::)?Record$', r'^ttl$')
+    ws = [w for w in writers(cx.prog, r'^hickory_proto::rr::record::Record$', r'^ttl$')
           if w[0].crate == 'hickory_net' and '::dnssec::' in w[0].path]
     cx.check('C06.W1', len(ws) >= 1 and all(w[0].path == N + 'VerifiedRrset::update_rrset' or
                                              w[0].path.startswith(N + 'VerifiedRrset') for w in ws),
